@@ -615,6 +615,13 @@ func main() {
 	}
 	wire(r, nWire)
 
+	// ---- 2c. life cycle: real ConsumerGroups, real goroutines, a small coordinator (life.go)
+	nLife := 9
+	if thorough {
+		nLife = 60
+	}
+	lifeCases(r, nLife)
+
 	// the two regression witnesses of finding C14-D30 (Props/C14.lean §5)
 	{
 		ms := []member{{"m1", 0, []int{0, 0}}, {"m2", 0, []int{0}}}
